@@ -132,7 +132,10 @@ def main(argv):
         if len(samples) < 12 and r['obligations']:
             o = r['obligations'][min(len(r['obligations']) - 1, 7)]
             samples.append({'job': r['job'], 'obligation': o['name'], 'description': o['desc'], 'location': o['loc'], 'status': o['status']})
-        for o in r['failed']:
+        # triage: a failed precondition of a call replaced by its contract makes dfcc's later bookkeeping obligations of the same job fail too
+        # (measured, DESIGN A.5): when a job has failed `precondition` obligations only those are reported, the rest are their echo
+        pre = [o for o in r['failed'] if '.precondition.' in (o['name'] or '')]
+        for o in (pre if pre else r['failed']):
             hit = next((k for k in kf if re.search(k['obligation'], (o['desc'] or '') + ' ' + (o['name'] or ''))), None)
             if hit:
                 kf_hit.append((hit, o)); n_ok += 0
